@@ -20,9 +20,7 @@ use std::sync::Arc;
 pub fn node_a<'s, I: Kind<'s>, R: Er<'s, I>>(this: &mut Bld<'s, I, R>, g: &G) -> BP<'s, I, R> {
     use G::*;
     match g {
-        Just(s) => just::<_, I, Ex<R>>(toks_of::<I>(s))
-            .map(|v: Vec<I::Tok>| Val::Str(v.iter().map(|t| t.to_char()).collect()))
-            .cb(),
+        Just(s) => I::p_just::<R>(s),
         Any if this.borrow_prims => I::p_any_ref::<R>(),
         Any => I::p_any::<R>(),
         OneOf(s) => I::p_one_of::<R>(s),
